@@ -231,6 +231,8 @@ func Main(m *testing.M) {
 		flag.Parse()
 	}
 	_ = flag.Set("rapid.seed", strconv.FormatUint(Seed(), 10))
+	// shrinking is a convenience: a failing case with stall budgets in it must not eat the check's deadline
+	_ = flag.Set("rapid.shrinktime", "10s")
 	code := m.Run()
 	S().Flush()
 	os.Exit(code)
